@@ -187,6 +187,13 @@ def run_core(prop, tier, seed, t0, cfgname='TraceCore.cfg'):
             p = os.path.join(lib.BUILD, 'replay'); os.makedirs(p, exist_ok=True)
             path = os.path.join(p, 'C03-inductive-invariant.txt'); open(path, 'w').write(apalache['output'])
             out_lines.append('VIOLATION property=C03 replay=%s' % path); nviol += 1
+    # ---- the repository's own tests (self_test, thread_terror) with hooks, validated against Generic.tla
+    suite_cov = {}
+    if prop in SUITE_PROPS:
+        sn, slines, suite_cov = suite_violations(prop, tier, seed)
+        if sn is None:
+            print(slines[0]); return 2
+        out_lines += slines; nviol += sn
     for l in out_lines[:20]:
         print(l)
     # ---- evidence
@@ -205,6 +212,7 @@ def run_core(prop, tier, seed, t0, cfgname='TraceCore.cfg'):
                     % [p[0] for p in spec['profiles']],
                samples=samples, model_checking=mc.get('summary', {}), exhaustive=False,
                sanitizers='ASan+UBSan+LSan, TROMPELOEIL_SANITY_CHECKS', tree=lib.tree_hash())
+    cov.update(suite_cov)
     if apalache:
         cov['inductive_invariant'] = {k: v for k, v in apalache.items() if k != 'output'}
     if exhaustive_note:
@@ -870,3 +878,85 @@ def fixed_conc_segments():
     return out
 
 REGISTRY['C12'] = run_conc
+
+# ---------------------------------------------------------------- the repository's own tests, validated against Generic.tla
+SUITE_PROPS = ('C01', 'C02', 'C03', 'C04', 'C05', 'C07', 'C14', 'C15')
+
+def suite_trace(tier, seed):
+    """Run the repository's self_test and thread_terror (built with the guarded hooks) and validate the recorded event
+    traces against spec/Generic.tla with TLC.  Returns dict(viol=[...], cases, events, tt_events) or dict(error=...).
+    The verdict is cached per (tree + test sources + spec) hash: same tree, same binary, same deterministic suite."""
+    import subprocess, suite_trace as st
+    try:
+        d = lib.build_suite()
+    except lib.BuildError as e:
+        return dict(error=str(e))
+    spec_h = lib.sha_files([os.path.join(lib.SPEC, f) for f in ('Generic.tla', 'TraceGeneric.tla', 'TraceGeneric.cfg')] + [os.path.join(lib.HARNESS, 'suite_trace.py')])
+    cache = os.path.join(d, 'verdict-%s-%s.json' % (tier, spec_h))
+    with lib.Lock(os.path.join(d, 'run.lock')):
+        if os.path.exists(cache):
+            return json.load(open(cache))
+        out = dict(viol=[], cases=0, events=0, tt_events=0, notes=[])
+        work = os.path.join(d, 'work-%d' % os.getpid())
+        shutil.rmtree(work, ignore_errors=True); os.makedirs(work)
+        try:
+            runs = []
+            if os.path.exists(os.path.join(d, 'self_test_g')):
+                runs.append(('self_test', [os.path.join(d, 'self_test_g')], None))
+            if os.path.exists(os.path.join(d, 'thread_terror_g')):
+                runs.append(('thread_terror', [os.path.join(d, 'thread_terror_g')], 800000 if tier == 'quick' else 4000000))
+            for name, cmd, maxl in runs:
+                raw = os.path.join(work, name + '.raw'); norm = os.path.join(work, name + '.ndjson')
+                env = dict(os.environ, VERIF_GTRACE=raw)
+                if maxl:
+                    env['VERIF_GTRACE_MAX'] = str(maxl)
+                p = subprocess.run(['timeout', '900'] + cmd, env=env, stdout=subprocess.PIPE, stderr=subprocess.STDOUT, text=True)
+                out['notes'].append('%s: exit %d, %s' % (name, p.returncode, (p.stdout.strip().splitlines() or [''])[-1][:120]))
+                if not os.path.exists(raw):
+                    return dict(error='%s wrote no trace (exit %d): %s' % (name, p.returncode, p.stdout[-500:]))
+                n = st.normalize(raw, norm)
+                os.unlink(raw)
+                r = lib.validate_generic('TraceGeneric.tla', 'TraceGeneric.cfg', norm, work, 'g_' + name)
+                if 'error' in r:
+                    return dict(error='%s: %s' % (name, r['error']))
+                for v in r['viol']:
+                    v['program'] = name
+                    # keep the events of the rejected test case with the violation (the replay evidence)
+                    lines = open(norm).read().splitlines()
+                    lo = v['line'] - 1
+                    while lo > 0 and '"e":"Case"' not in lines[lo]:
+                        lo -= 1
+                    v['history'] = lines[lo:v['line'] + 2][-120:]
+                out['viol'] += r['viol']
+                if name == 'self_test':
+                    out['events'] = n
+                    out['cases'] = sum(1 for l in open(norm) if '"e":"Case"' in l)
+                else:
+                    out['tt_events'] = n
+        finally:
+            shutil.rmtree(work, ignore_errors=True)
+        json.dump(out, open(cache, 'w'))
+        return out
+
+def suite_violations(prop, tier, seed):
+    """violations of the generic rules that concern `prop`, as VIOLATION lines + replay files; (nviol, lines, coverage dict)"""
+    r = suite_trace(tier, seed)
+    if 'error' in r:
+        return None, ['CHECK-ERROR property=%s repository test trace: %s' % (prop, r['error'][:1500])], {}
+    rp = os.path.join(lib.BUILD, 'replay'); os.makedirs(rp, exist_ok=True)
+    lines, n = [], 0
+    for i, v in enumerate(r['viol']):
+        if prop not in v.get('prop', '').split() and v.get('prop') != 'HARNESS':
+            continue
+        path = os.path.join(rp, '%s-suite-%d.txt' % (prop, i))
+        with open(path, 'w') as f:
+            f.write('# rule "%s" of spec/Generic.tla violated by the repository\'s own %s (test case "%s"), event %d\n' % (v['field'], v['program'], v.get('seg', ''), v['line']))
+            f.write('# expected: %s\n# got: %s\n# re-run: ./check %s %s (builds %s with -DROLLBEAR_TROMPELOEIL_VERIF and validates its hook trace)\n' % (v['exp'], v['got'], prop, tier, v['program']))
+            f.write('\n'.join(v.get('history', [])) + '\n')
+        lines.append('VIOLATION property=%s replay=%s' % (prop, path)); n += 1
+        if n >= 5:
+            break
+    cov = dict(repository_tests=dict(self_test_cases=r.get('cases', 0), self_test_events=r.get('events', 0), thread_terror_events=r.get('tt_events', 0),
+                                     notes=r.get('notes', []), spec='Generic.tla / TraceGeneric.tla',
+                                     rule='every hook event of the repository\'s own self_test (all test cases) and of a prefix of thread_terror, folded through Generic!GStep by TLC'))
+    return n, lines, cov
